@@ -28,6 +28,14 @@ CATS = {
 }
 
 # read one by one (see DESIGN.md section 11)
+EXPLICIT2 = {
+    ("circle.go", 27, ">", ">="): "redundant", ("circle.go", 86, "<=", "<"): "tolerance-band", ("circle.go", 156, "1", "0"): "accessor",
+    ("circle.go", 156, "1", "2"): "accessor", ("geometry/series.go", 294, "0", "1"): "redundant", ("circle.go", 27, "meters > 0", "true"): "redundant",
+    ("geo/geo.go", 120, "minLat = lat", ""): "wider-rect", ("geo/geo.go", 122, "maxLat = lat", ""): "wider-rect",
+    ("geometry/series.go", 120, "nseries.buildIndex()", ""): "index-tuning", ("geometry/series.go", 240, "closed && points[0] == points[", "false"): "redundant",
+    ("geometry/series.go", 241, "n--", ""): "redundant", ("geometry/series.go", 297, "concave", "false"): "early-stop",
+    ("geometry/series.go", 311, "hasPrev", "true"): "redundant", ("geometry/series.go", 319, "series.index = nil", ""): "index-tuning",
+}
 EXPLICIT = {
     # token mutants
     2: "tolerance-band", 8: "redundant", 21: "tolerance-band", 31: "caught-later", 622: "caught-later", 2350: "caught-later", 2388: "accessor",
@@ -55,10 +63,15 @@ for _cat, _ids in {
         EXPLICIT[_i] = _cat
 
 
+USE_EXPLICIT = True  # the ids of the second sweep (sets v2*) are numbered differently
+
+
 def classify(r):
     i, f, src, old, new, kind = r["id"], r["file"], r["src"], r["old"], r["new"], r["kind"]
-    if i in EXPLICIT:
+    if USE_EXPLICIT and i in EXPLICIT:
         return EXPLICIT[i]
+    if not USE_EXPLICIT and (f, r["line"], old[:30], new[:20]) in EXPLICIT2:
+        return EXPLICIT2[(f, r["line"], old[:30], new[:20])]
     if f in ("geometry/rtree.go", "geometry/qtree.go"):
         return "index-tuning"
     if f == "geometry/geometry.go":
@@ -104,10 +117,14 @@ def main():
            "repaired later - raycast.go, series.go, geo.go - are covered by the earlier state).  A mutant counts only if the library still builds "
            "and the pinned suite still passes with it; each such mutant was then handed to the quick checks, most likely first, until one "
            "reported a violation (tools/mutate.py).", ""]
+    global USE_EXPLICIT
     for name, title in (("", "Token mutants (relational, arithmetic, logical operators, constants, booleans, break/continue)"),
-                        ("-ast", "Structural mutants (if-condition forced false / true, statement deleted, loop skipped)")):
-        muts = sum(1 for _ in open(os.path.join(ROOT, "mutants%s.jsonl" % name)))
+                        ("-ast", "Structural mutants (if-condition forced false / true, statement deleted, loop skipped)"),
+                        ("-v2", "Second sweep, token mutants of the four files repaired during the day (raycast.go, series.go, geo.go, circle.go) at the final commit, final harness"),
+                        ("-v2-ast", "Second sweep, structural mutants of the same four files")):
+        USE_EXPLICIT = not name.startswith("-v2")
         filt = collections.Counter(json.loads(l)["status"] for l in open(os.path.join(ROOT, "filter%s.jsonl" % name)))
+        muts = sum(filt.values())
         scores = {}
         for l in open(os.path.join(ROOT, "scores%s.jsonl" % name)):
             r = json.loads(l)
